@@ -1,5 +1,293 @@
-import PanqecVerif.Model.Sweep
+/-
+C10 — sweep decoders track the true residual syndrome.
+
+Statement (properties.jsonl): at every step of a sweep decoder's cellular automaton the
+excitation pattern it tracks equals the face syndrome of (original error + correction
+accumulated so far): flipping an edge toggles exactly the face stabilizers that anticommute
+with Z on that edge, and an edge flipped twice is removed from the correction.  Hence the
+returned correction is Z-only, and whenever the automaton stops with no excitations left the
+face syndrome of error + correction is zero.
+
+Model: `Model/Sweep.lean` (both automata, `site`, `to_bsf`), `Model/SweepLattices.lean`
+(the four 3-D lattices).  Helper lemmas: `Proofs/SweepGeneric.lean`, `Proofs/SweepLattice.lean`,
+`Proofs/SweepToric.lean`, `Proofs/SweepInstances.lean`.
+
+Vocabulary
+  `Tracks lat ez st`   : `st.signs = faceSyn lat (ez ⊕ Z-part of st.corr)`   (THE invariant)
+  `ZOnly op`           : every letter of the dict is Z
+  `flipTableOK lat F`  : on every edge of `lat`, the faces `F` toggles (odd multiplicity) are
+                         exactly the stabilizer rows that are not flagged in `z_indices` and
+                         carry X on that edge  (decidable; the geometry hypothesis)
+  `sweepEdgesOK3D lat` : every edge `SweepDecoder3D.sweep_move` can propose is an edge of the
+                         lattice (decidable; the rotated decoder checks this at run time)
+All theorems quantify over every error (`ex`, `ez` arbitrary functions of the location), every
+tie-break stream `ds`, every loop bound and every step.
+-/
+import PanqecVerif.Proofs.SweepToric
+import PanqecVerif.Proofs.SweepInstances
+
 namespace Panqec.C10
-open Panqec.Sweep
-theorem placeholder : flipTableOK (toric3D 2 2 2) (flipFaces3D (toric3D 2 2 2)) = true := by decide +kernel
+
+open Panqec Panqec.Sweep
+
+/-! ## (i) the generic invariant -/
+
+/-- ONE FLIP.  For any lattice data and any flip table `faces`: if the table is consistent on
+    `loc`, flipping `loc` (toggle the listed faces, `site(correction, 'Z', loc)`) keeps the
+    tracked signs equal to the face syndrome of error + correction, and does not raise. -/
+theorem flip_one_edge_tracks (lat : Lattice) (faces : Loc → Option (List Loc))
+    (hnd : lat.stabs.Nodup) (ez : Loc → Bool) (st : State) (loc : Loc)
+    (hT : Tracks lat ez st) (hZ : ZOnly st.corr) (hok : flipOK lat faces loc = true) :
+    ∃ s', flipWith lat faces loc st.signs = some s' ∧
+      Tracks lat ez ⟨s', site st.corr .Z loc⟩ ∧ ZOnly (site st.corr .Z loc) :=
+  flip_step lat faces hnd ez st loc hT hZ hok
+
+/-- ANY SEQUENCE OF FLIPS (the second loop of either `sweep_move`, whatever rule chose the
+    edges and in whatever order, repetitions included). -/
+theorem flip_sequence_tracks (lat : Lattice) (faces : Loc → Option (List Loc))
+    (hnd : lat.stabs.Nodup) (ez : Loc → Bool) (locs : List Loc) (st : State)
+    (hT : Tracks lat ez st) (hZ : ZOnly st.corr)
+    (hok : ∀ loc ∈ locs, flipOK lat faces loc = true) :
+    ∃ st', applyFlips lat faces site locs st = some st' ∧ Tracks lat ez st' ∧ ZOnly st'.corr :=
+  applyFlips_tracks lat faces hnd ez locs st hT hZ hok
+
+/-- the toggle lemma behind it: on a Z-only operator `site(·,'Z',loc)` flips the Z part at
+    `loc` and nowhere else — an edge flipped twice is removed from the correction -/
+theorem site_toggles (op : Op) (loc q : Loc) (h : ZOnly op) :
+    zPartOf (site op .Z loc) q = (zPartOf op q != (q == loc)) :=
+  zPartOf_site op loc q h
+
+/-- `get_initial_state(measure_syndrome(e))` is the face syndrome of `e` (any Pauli error:
+    X part `ex`, Z part `ez`) -/
+theorem initial_state_tracks (lat : Lattice) (ex ez : Loc → Bool) :
+    Tracks lat ez ⟨initialState lat (syndromeOf lat ex ez), []⟩ :=
+  (initial_good lat ex ez).1
+
+/-- ONE `SweepDecoder3D.sweep_move` from any state that satisfies the invariant, any stream. -/
+theorem sweep_move_3D_tracks (lat : Lattice) (hnd : lat.stabs.Nodup)
+    (hft : flipTableOK lat (flipFaces3D lat) = true) (hse : sweepEdgesOK3D lat = true)
+    (ez : Loc → Bool) (st : State) (ds : List Dir) (hT : Tracks lat ez st) (hZ : ZOnly st.corr) :
+    ∃ st' ds', sweepMove3D lat st ds = some (st', ds') ∧ Tracks lat ez st' ∧ ZOnly st'.corr :=
+  sweepMove3D_preserves lat hnd hft hse ez st ds ⟨hT, hZ⟩
+
+/-- ONE `RotatedSweepDecoder3D.sweep_move`, any of the sweep directions (indeed any triple). -/
+theorem sweep_move_rotated_tracks (lat : Lattice) (hnd : lat.stabs.Nodup)
+    (hft : flipTableOK lat (flipFacesRot lat) = true) (ez : Loc → Bool) (sd : SweepDir)
+    (st : State) (ds : List Dir) (hT : Tracks lat ez st) (hZ : ZOnly st.corr) :
+    ∃ st' ds', sweepMoveRot lat sd st ds = some (st', ds') ∧ Tracks lat ez st' ∧ ZOnly st'.corr :=
+  sweepMoveRot_preserves lat hnd hft ez sd st ds ⟨hT, hZ⟩
+
+/-- EVERY STEP OF EVERY RUN of `SweepDecoder3D.decode`: for every error, every tie-break
+    stream and every `max_sweep_factor`, the run does not raise, and every state it visits
+    (and the final one) tracks the face syndrome of error + correction with a Z-only
+    correction. -/
+theorem sweep3D_every_step_tracks (lat : Lattice) (hnd : lat.stabs.Nodup)
+    (hft : flipTableOK lat (flipFaces3D lat) = true) (hse : sweepEdgesOK3D lat = true)
+    (ex ez : Loc → Bool) (maxSweepFactor : Nat) (ds : List Dir) :
+    ∃ tr stf dsf, run3D lat maxSweepFactor (syndromeOf lat ex ez) ds = some (tr, stf, dsf) ∧
+      (∀ st ∈ tr, Tracks lat ez st ∧ ZOnly st.corr) ∧ Tracks lat ez stf ∧ ZOnly stf.corr := by
+  obtain ⟨tr, stf, dsf, h1, h2, h3⟩ :=
+    sweepLoop_preserves (Good lat ez) (sweepMove3D lat) (sweepMove3D_preserves lat hnd hft hse ez)
+      (maxSweepFactor * lat.maxSize) _ ds (initial_good lat ex ez)
+  exact ⟨tr, stf, dsf, h1, h2, h3.1, h3.2⟩
+
+/-- EVERY STEP OF EVERY RUN of `RotatedSweepDecoder3D.decode` (all rounds, all eight sweep
+    directions, every inner sweep). -/
+theorem rotated_every_step_tracks (lat : Lattice) (hnd : lat.stabs.Nodup)
+    (hft : flipTableOK lat (flipFacesRot lat) = true)
+    (ex ez : Loc → Bool) (maxRounds : Nat) (ds : List Dir) :
+    ∃ tr stf dsf, runRot lat maxRounds (syndromeOf lat ex ez) ds = some (tr, stf, dsf) ∧
+      (∀ st ∈ tr, Tracks lat ez st ∧ ZOnly st.corr) ∧ Tracks lat ez stf ∧ ZOnly stf.corr := by
+  obtain ⟨tr, stf, dsf, h1, h2, h3⟩ :=
+    roundsLoopRot_preserves (Good lat ez) lat (4 * (2 * lat.maxSize + 2))
+      (fun sd => sweepMoveRot_preserves lat hnd hft ez sd) maxRounds _ ds (initial_good lat ex ez)
+  exact ⟨tr, stf, dsf, h1, h2, h3.1, h3.2⟩
+
+/-! ## (ii) the correction is Z-only -/
+
+/-- the binary-symplectic image of a Z-only dict has an all-zero X block -/
+theorem z_only_bsf_has_zero_x_block (lat : Lattice) (op : Op) (h : ZOnly op) (v : List Nat)
+    (hv : toBsf lat op = some v) : v.take lat.qubits.length = List.replicate lat.qubits.length 0 :=
+  toBsf_xblock_zero lat op h v hv
+
+/-- what `SweepDecoder3D.decode` returns has an all-zero X block -/
+theorem sweep3D_returns_z_only (lat : Lattice) (hnd : lat.stabs.Nodup)
+    (hft : flipTableOK lat (flipFaces3D lat) = true) (hse : sweepEdgesOK3D lat = true)
+    (ex ez : Loc → Bool) (maxSweepFactor : Nat) (ds : List Dir) (v : List Nat)
+    (hv : decode3D lat maxSweepFactor (syndromeOf lat ex ez) ds = some v) :
+    v.take lat.qubits.length = List.replicate lat.qubits.length 0 := by
+  obtain ⟨tr, stf, dsf, h1, _, _, h4⟩ :=
+    sweep3D_every_step_tracks lat hnd hft hse ex ez maxSweepFactor ds
+  unfold decode3D at hv
+  rw [h1] at hv
+  exact toBsf_xblock_zero lat stf.corr h4 v hv
+
+/-- what `RotatedSweepDecoder3D.decode` returns has an all-zero X block -/
+theorem rotated_returns_z_only (lat : Lattice) (hnd : lat.stabs.Nodup)
+    (hft : flipTableOK lat (flipFacesRot lat) = true)
+    (ex ez : Loc → Bool) (maxRounds : Nat) (ds : List Dir) (v : List Nat)
+    (hv : decodeRot lat maxRounds (syndromeOf lat ex ez) ds = some v) :
+    v.take lat.qubits.length = List.replicate lat.qubits.length 0 := by
+  obtain ⟨tr, stf, dsf, h1, _, _, h4⟩ := rotated_every_step_tracks lat hnd hft ex ez maxRounds ds
+  unfold decodeRot at hv
+  rw [h1] at hv
+  exact toBsf_xblock_zero lat stf.corr h4 v hv
+
+/-! ## (iii) stopping without excitations -/
+
+/-- a state that satisfies the invariant and has no excitation left: the face syndrome of
+    error + correction is zero on every row -/
+theorem no_excitations_zero_face_syndrome (lat : Lattice) (ez : Loc → Bool) (st : State)
+    (hT : Tracks lat ez st) (h0 : st.signs.any id = false) :
+    ∀ b ∈ faceSyn lat (residualZ ez st.corr), b = false := by
+  unfold Tracks at hT
+  rw [← hT]
+  intro b hb
+  rw [List.any_eq_false] at h0
+  simpa using h0 b hb
+
+/-- `SweepDecoder3D.decode`: if the loop ends with no excitations, error + returned correction
+    has zero face syndrome -/
+theorem sweep3D_stop_clean (lat : Lattice) (hnd : lat.stabs.Nodup)
+    (hft : flipTableOK lat (flipFaces3D lat) = true) (hse : sweepEdgesOK3D lat = true)
+    (ex ez : Loc → Bool) (maxSweepFactor : Nat) (ds : List Dir) (tr : List State) (stf : State)
+    (dsf : List Dir)
+    (hrun : run3D lat maxSweepFactor (syndromeOf lat ex ez) ds = some (tr, stf, dsf))
+    (h0 : stf.signs.any id = false) :
+    ∀ b ∈ faceSyn lat (residualZ ez stf.corr), b = false := by
+  obtain ⟨tr', stf', dsf', h1, _, h3, _⟩ :=
+    sweep3D_every_step_tracks lat hnd hft hse ex ez maxSweepFactor ds
+  rw [hrun] at h1
+  cases h1
+  exact no_excitations_zero_face_syndrome lat ez stf h3 h0
+
+/-- the same for `RotatedSweepDecoder3D.decode` -/
+theorem rotated_stop_clean (lat : Lattice) (hnd : lat.stabs.Nodup)
+    (hft : flipTableOK lat (flipFacesRot lat) = true)
+    (ex ez : Loc → Bool) (maxRounds : Nat) (ds : List Dir) (tr : List State) (stf : State)
+    (dsf : List Dir)
+    (hrun : runRot lat maxRounds (syndromeOf lat ex ez) ds = some (tr, stf, dsf))
+    (h0 : stf.signs.any id = false) :
+    ∀ b ∈ faceSyn lat (residualZ ez stf.corr), b = false := by
+  obtain ⟨tr', stf', dsf', h1, _, h3, _⟩ := rotated_every_step_tracks lat hnd hft ex ez maxRounds ds
+  rw [hrun] at h1
+  cases h1
+  exact no_excitations_zero_face_syndrome lat ez stf h3 h0
+
+/-! ## (iv) geometry: the flip tables against the face stabilizers -/
+
+/-- Toric3DCode, EVERY size `L_x, L_y, L_z ≥ 2`: on every edge `SweepDecoder3D.flip_edge`
+    (neighbour table, `np.mod` by the limits, `is_stabilizer` filter) toggles exactly the face
+    stabilizers that anticommute with Z on that edge. -/
+theorem toric3D_flip_table_ok (Lx Ly Lz : Nat) (hx : 2 ≤ Lx) (hy : 2 ≤ Ly) (hz : 2 ≤ Lz) :
+    flipTableOK (toric3D Lx Ly Lz) (flipFaces3D (toric3D Lx Ly Lz)) = true :=
+  toric_flipTableOK Lx Ly Lz hx hy hz
+
+/-- Toric3DCode, every size ≥ 2: the edges proposed by the sweep rule are edges of the lattice -/
+theorem toric3D_sweep_edges_ok (Lx Ly Lz : Nat) (hx : 2 ≤ Lx) (hy : 2 ≤ Ly) (hz : 2 ≤ Lz) :
+    sweepEdgesOK3D (toric3D Lx Ly Lz) = true :=
+  toric_sweepEdgesOK Lx Ly Lz hx hy hz
+
+/-- Toric3DCode, every size: stabilizer locations are pairwise distinct -/
+theorem toric3D_stabilizers_distinct (Lx Ly Lz : Nat) : (toric3D Lx Ly Lz).stabs.Nodup :=
+  toricStabs_nodup Lx Ly Lz
+
+/-- C10 for `SweepDecoder3D` on `Toric3DCode`, unconditional: every size ≥ 2, every error,
+    every stream, every bound, every step. -/
+theorem toric3D_sweep_tracks (Lx Ly Lz : Nat) (hx : 2 ≤ Lx) (hy : 2 ≤ Ly) (hz : 2 ≤ Lz)
+    (ex ez : Loc → Bool) (maxSweepFactor : Nat) (ds : List Dir) :
+    ∃ tr stf dsf, run3D (toric3D Lx Ly Lz) maxSweepFactor
+        (syndromeOf (toric3D Lx Ly Lz) ex ez) ds = some (tr, stf, dsf) ∧
+      (∀ st ∈ tr, Tracks (toric3D Lx Ly Lz) ez st ∧ ZOnly st.corr) ∧
+      Tracks (toric3D Lx Ly Lz) ez stf ∧ ZOnly stf.corr :=
+  sweep3D_every_step_tracks _ (toricStabs_nodup Lx Ly Lz) (toric_flipTableOK Lx Ly Lz hx hy hz)
+    (toric_sweepEdgesOK Lx Ly Lz hx hy hz) ex ez maxSweepFactor ds
+
+/-
+Planar3DCode and RotatedPlanar3DCode — full statement intended:
+
+  ∀ Lx Ly Lz ≥ 1, flipTableOK (planar3D Lx Ly Lz) (flipFaces3D (planar3D Lx Ly Lz)) = true
+                  ∧ sweepEdgesOK3D (planar3D Lx Ly Lz) = true ∧ (planar3D Lx Ly Lz).stabs.Nodup
+  ∀ Lx Ly Lz ≥ 1, flipTableOK (rotPlanar3D Lx Ly Lz) (flipFacesRot (rotPlanar3D Lx Ly Lz)) = true
+                  ∧ (rotPlanar3D Lx Ly Lz).stabs.Nodup
+
+Proved below only for the listed sizes by kernel evaluation (`_partial`); what is missing is
+the all-sizes coordinate argument (same pattern as `Proofs/SweepToric.lean`, with boundary
+cases instead of wraps).  The generic theorems above apply to any size for which the three
+decidable hypotheses are checked; the harness evaluates them with the compiled model on
+every size it runs.
+-/
+
+/-- Planar3DCode, sizes listed in `planarSizes`: flip table consistent, proposed edges are
+    edges, stabilizers distinct -/
+theorem planar3D_geometry_partial :
+    ∀ s ∈ planarSizes, GeometryOK3D (planar3D s.1 s.2.1 s.2.2) = true :=
+  planar_geometry_instances
+
+/-- RotatedPlanar3DCode, sizes listed in `rotPlanarSizes` -/
+theorem rotated_planar3D_geometry_partial :
+    ∀ s ∈ rotPlanarSizes, GeometryOKRot (rotPlanar3D s.1 s.2.1 s.2.2) = true :=
+  rotPlanar_geometry_instances
+
+/-- C10 for `SweepDecoder3D` on `Planar3DCode` at the checked sizes -/
+theorem planar3D_sweep_tracks_partial (s : Nat × Nat × Nat) (hs : s ∈ planarSizes)
+    (ex ez : Loc → Bool) (maxSweepFactor : Nat) (ds : List Dir) :
+    ∃ tr stf dsf, run3D (planar3D s.1 s.2.1 s.2.2) maxSweepFactor
+        (syndromeOf (planar3D s.1 s.2.1 s.2.2) ex ez) ds = some (tr, stf, dsf) ∧
+      (∀ st ∈ tr, Tracks (planar3D s.1 s.2.1 s.2.2) ez st ∧ ZOnly st.corr) ∧
+      Tracks (planar3D s.1 s.2.1 s.2.2) ez stf ∧ ZOnly stf.corr := by
+  obtain ⟨h1, h2, h3⟩ := geometryOK3D_spec _ (planar_geometry_instances s hs)
+  exact sweep3D_every_step_tracks _ h1 h2 h3 ex ez maxSweepFactor ds
+
+/-- C10 for `RotatedSweepDecoder3D` on `RotatedPlanar3DCode` at the checked sizes -/
+theorem rotated_planar3D_sweep_tracks_partial (s : Nat × Nat × Nat) (hs : s ∈ rotPlanarSizes)
+    (ex ez : Loc → Bool) (maxRounds : Nat) (ds : List Dir) :
+    ∃ tr stf dsf, runRot (rotPlanar3D s.1 s.2.1 s.2.2) maxRounds
+        (syndromeOf (rotPlanar3D s.1 s.2.1 s.2.2) ex ez) ds = some (tr, stf, dsf) ∧
+      (∀ st ∈ tr, Tracks (rotPlanar3D s.1 s.2.1 s.2.2) ez st ∧ ZOnly st.corr) ∧
+      Tracks (rotPlanar3D s.1 s.2.1 s.2.2) ez stf ∧ ZOnly stf.corr := by
+  obtain ⟨h1, h2⟩ := geometryOKRot_spec _ (rotPlanar_geometry_instances s hs)
+  exact rotated_every_step_tracks _ h1 h2 ex ez maxRounds ds
+
+/-! ## documented regressions (negative instances) -/
+
+/-- D9 (fixed in /repo by 9208454).  With the OLD update `correction[location] = 'Z'`
+    (assignment) the invariant is FALSE: Toric3DCode 2×2×2, Z errors on qubit indices 3 and 21
+    (locations (1,2,2) and (2,0,3)), default `max_sweep_factor = 32`, no tie-break needed: some
+    state visited by the run does not track the residual face syndrome. -/
+theorem old_assignment_update_breaks_invariant :
+    (oldRun3D (toric3D 2 2 2) 32 (syndromeOf (toric3D 2 2 2) (fun _ => false) witnessD9) []).map
+      (fun r => r.1.all fun st => decide (Tracks (toric3D 2 2 2) witnessD9 st)) = some false :=
+  old_update_witness
+
+/-- the same input with the update the code has now (`site`, a toggle): every visited state
+    tracks (instance of `toric3D_sweep_tracks`, evaluated) -/
+theorem toggle_update_on_the_same_witness :
+    (run3D (toric3D 2 2 2) 32 (syndromeOf (toric3D 2 2 2) (fun _ => false) witnessD9) []).map
+      (fun r => r.1.all fun st => decide (Tracks (toric3D 2 2 2) witnessD9 st)) = some true :=
+  new_update_witness
+
+/-- D10 (known finding, NOT fixed).  `RotatedSweepDecoder3D.flip_edge` has no periodic seam:
+    on RotatedToric3DCode 2×2×2 its flip table is inconsistent with the face stabilizers
+    (8 of the 10 edges; the bad edges are listed by `rotated_toric_bad_edges`). -/
+theorem rotated_toric_flip_table_inconsistent :
+    flipTableOK (rotToric3D 2 2 2) (flipFacesRot (rotToric3D 2 2 2)) = false :=
+  rotToric_table_bad
+
+theorem rotated_toric_bad_edges :
+    flipTableBad (rotToric3D 2 2 2) (flipFacesRot (rotToric3D 2 2 2)) =
+      [(1, 1, 1), (1, 1, 3), (1, 3, 1), (1, 3, 3), (3, 1, 1), (3, 1, 3), (2, 4, 2), (4, 2, 2)] :=
+  rotToric_bad_edges
+
+/-! ## non-vacuity -/
+
+/-- the hypotheses of the generic theorems hold on concrete lattices of both decoders -/
+example : GeometryOK3D (toric3D 2 3 2) = true := by decide +kernel
+example : GeometryOKRot (rotPlanar3D 2 2 2) = true := by decide +kernel
+
+/-- a run that really flips edges: Toric3DCode 2×2×2, the D9 witness, new update: two sweeps -/
+example :
+    (run3D (toric3D 2 2 2) 32 (syndromeOf (toric3D 2 2 2) (fun _ => false) witnessD9) []).map
+      (fun r => r.1.length) = some 2 := by decide +kernel
+
 end Panqec.C10
